@@ -94,7 +94,7 @@ impl RateLimit {
 		let nb_mili = match min_duration.as_secs() {
 			0 | 1 => crate::MIN_RATE_LIMIT_SLEEP_MILISEC,
 			n => {
-				let a = n * 200 / nb_req;
+				let a = n.saturating_mul(200) / nb_req;
 				let a = cmp::min(a, crate::MAX_RATE_LIMIT_SLEEP_MILISEC);
 				cmp::max(a, crate::MIN_RATE_LIMIT_SLEEP_MILISEC)
 			}
@@ -104,21 +104,18 @@ impl RateLimit {
 
 	fn request_allowed(&self) -> bool {
 		for (max_allowed, duration) in self.limits.iter() {
-			match Instant::now().checked_sub(*duration) {
-				Some(max_date) => {
-					let nb_req = self
-						.query_log
-						.iter()
-						.filter(move |x| **x > max_date)
-						.count();
-					if nb_req >= *max_allowed {
-						return false;
-					}
-				}
-				None => {
-					return false;
-				}
+			let nb_req = match Instant::now().checked_sub(*duration) {
+				Some(max_date) => self
+					.query_log
+					.iter()
+					.filter(move |x| **x > max_date)
+					.count(),
+				// The period reaches before the origin of the clock: every logged request is in it.
+				None => self.query_log.len(),
 			};
+			if nb_req >= *max_allowed {
+				return false;
+			}
 		}
 		true
 	}
